@@ -151,8 +151,12 @@ func diffTokens(a, b TokenSnap) tokenDelta {
 
 // TokenState is the harness's ledger of native assets and transfer packets.
 type TokenState struct {
-	Prop     string
-	NFTLive  map[Ident]bool     // natively minted, not burned by a holder
+	Prop    string
+	NFTLive map[Ident]bool // natively minted, not burned by a holder
+	// NFTInst: what every instance (chain|class|id) the ledger has seen come into existence represents, by
+	// provenance (native mint, or voucher minted against a delivered flight) -- never by reading class strings,
+	// which a user can choose freely for native classes.
+	NFTInst  map[string]InstInfo
 	MTMinted map[Ident]*big.Int // native mint total
 	MTBurned map[Ident]*big.Int
 	Flights  map[string]*TokenFlight // packet key -> flight
@@ -165,8 +169,24 @@ type TokenState struct {
 	// NoteC06 makes refund-exactness violations be reported under C06.
 }
 
+// InstInfo is the native identity an instance represents and the chains it travelled (origin first, holder last).
+type InstInfo struct {
+	Ident Ident
+	Trail []string
+}
+
+func instKey(chain, class, id string) string { return chain + "|" + class + "|" + id }
+
+// modelPath is the class path an instance with this provenance carries in packets and class traces.
+func (i InstInfo) modelPath() string {
+	if len(i.Trail) <= 1 {
+		return i.Ident.Base
+	}
+	return "nft/" + strings.Join(i.Trail, "/") + "/" + i.Ident.Base
+}
+
 func NewTokenState(prop string) *TokenState {
-	return &TokenState{Prop: prop, NFTLive: map[Ident]bool{}, MTMinted: map[Ident]*big.Int{}, MTBurned: map[Ident]*big.Int{},
+	return &TokenState{Prop: prop, NFTInst: map[string]InstInfo{}, NFTLive: map[Ident]bool{}, MTMinted: map[Ident]*big.Int{}, MTBurned: map[Ident]*big.Int{},
 		Flights: map[string]*TokenFlight{}, VoucherBurned: map[string]*big.Int{}, CheckSums: true, CheckStep: true}
 }
 
@@ -243,11 +263,13 @@ func (ts *TokenState) onUser(s *Sim, st *Step, c *world.Chain, delta tokenDelta)
 			return ts.viol("voucher-minted-by-user", "a user transaction created a token in a voucher class (vouchers may only come into existence against a delivered packet): "+st.Describe())
 		}
 		if contains(s.NFTClasses[c.Name], st.Class) {
-			ts.NFTLive[Ident{c.Name, st.Class, st.ID}] = true
+			id := Ident{c.Name, st.Class, st.ID}
+			ts.NFTLive[id] = true
+			ts.NFTInst[instKey(c.Name, st.Class, st.ID)] = InstInfo{id, []string{c.Name}}
 		}
 	case "nftburn":
-		if id, _, ok := identOfNFT(c, st.Class, st.ID); ok {
-			delete(ts.NFTLive, id)
+		if info, ok := ts.NFTInst[instKey(c.Name, st.Class, st.ID)]; ok {
+			delete(ts.NFTLive, info.Ident)
 			s.Label("holder-burned-nft")
 		}
 	case "mtmint":
@@ -300,20 +322,50 @@ func (ts *TokenState) onSend(s *Sim, st *Step, c *world.Chain, delta tokenDelta)
 		if !ok {
 			return nil
 		}
-		trail, base := ParsePath("nft", path, c.Name)
-		fl.Ident, fl.Trail, fl.Away = Ident{trail[0], base, st.ID}, trail, d.AwayFromOrigin
-		if d.Class != path || d.Id != st.ID || d.Sender != st.Sender || d.Receiver != st.Receiver {
-			return ts.viol("packet-data-mismatch", fmt.Sprintf("packet data %+v does not describe the requested transfer: %s", d, st.Describe()))
+		info, tracked := ts.NFTInst[instKey(c.Name, st.Class, st.ID)]
+		if !tracked {
+			ts.Tainted = true
+			s.Label("untracked-instance-sent")
+			return nil
+		}
+		// towards the origin iff the destination is the chain this instance arrived from
+		wantAway := len(info.Trail) == 1 || info.Trail[len(info.Trail)-2] != st.Packet.DestinationChain
+		fl.Ident, fl.Trail, fl.Away = info.Ident, info.Trail, wantAway
+		if len(info.Trail) == 1 && strings.Contains(st.Class, "/") {
+			s.Label("native-class-with-slash-sent")
+		}
+		if d.AwayFromOrigin && !wantAway {
+			// a return leg handled as one more hop away: nothing is burned or released, the token is escrowed once
+			// more (C06's concern, not a duplication); the ledger follows what the chain did
+			s.Label("return-leg-treated-as-away")
+			wantAway = true
+			fl.Away = true
+		}
+		if d.AwayFromOrigin != wantAway {
+			kind := "voucher"
+			switch {
+			case len(info.Trail) == 1:
+				kind = "native-class"
+			case strings.Contains(info.Ident.Base, "/"):
+				kind = "voucher-of-slash-class"
+			}
+			ts.Tainted = true // what follows from it (wrong release, duplicate) is the same finding
+			return ts.viol("direction-wrong/"+kind, fmt.Sprintf("instance representing %v (route so far %v) sent to %s was marked away_from_origin=%v: %s", info.Ident, info.Trail, short(st.Packet.DestinationChain), d.AwayFromOrigin, st.Describe()))
+		}
+		plainBase := !strings.Contains(info.Ident.Base, "/")
+		if d.Class != path || (plainBase && d.Class != info.modelPath()) || d.Id != st.ID || d.Sender != st.Sender || d.Receiver != st.Receiver {
+			return ts.viol("packet-data-mismatch", fmt.Sprintf("packet data %+v does not describe the requested transfer (class path by provenance %q): %s", d, info.modelPath(), st.Describe()))
 		}
 		// exactly this token left the sender: either to escrow or burned; nothing else changed
 		okShape := len(delta.NFTRemoved) == 1 && delta.NFTRemoved[0].Class == st.Class && delta.NFTRemoved[0].ID == st.ID &&
 			delta.NFTRemoved[0].Owner == st.Sender && len(delta.MTBal) == 0 && len(delta.MTSup) == 0
 		if okShape {
 			switch len(delta.NFTAdded) {
-			case 0: // burned
-			case 1:
+			case 0: // burned: only a voucher going back where it came from
+				okShape = !wantAway
+			case 1: // escrowed: anything moving away from its origin
 				a := delta.NFTAdded[0]
-				okShape = a.Class == st.Class && a.ID == st.ID && a.Owner == NFTEscrow
+				okShape = wantAway && a.Class == st.Class && a.ID == st.ID && a.Owner == NFTEscrow
 			default:
 				okShape = false
 			}
@@ -412,11 +464,13 @@ func (ts *TokenState) onRecv(s *Sim, st *Step, c *world.Chain, before TokenSnap,
 				return ts.viol("recv-delta", fmt.Sprintf("away receive changed tokens unexpectedly: %s; %s", delta, st.Describe()))
 			}
 			a := delta.NFTAdded[0]
-			id, trail, ok := identOfNFT(c, a.Class, a.ID)
-			wantTrail := append(append([]string{}, fl.Trail...), c.Name)
-			if !ok || id != fl.Ident || a.Owner != rcv || strings.Join(trail, "/") != strings.Join(wantTrail, "/") {
-				return ts.viol("voucher-mismatch", fmt.Sprintf("voucher %+v (ident %v trail %v) does not represent %v for %s: %s", a, id, trail, fl.Ident, shortAddr(rcv), st.Describe()))
+			info := InstInfo{fl.Ident, append(append([]string{}, fl.Trail...), c.Name)}
+			path, ok := NFTClassPath(c, a.Class)
+			plainBase := !strings.Contains(fl.Ident.Base, "/")
+			if !ok || !strings.HasPrefix(a.Class, "tibc-") || (plainBase && path != info.modelPath()) || a.ID != fl.Ident.ID || a.Owner != rcv {
+				return ts.viol("voucher-mismatch", fmt.Sprintf("voucher %+v (class path %q) does not represent %v via %v for %s: %s", a, path, fl.Ident, info.Trail, shortAddr(rcv), st.Describe()))
 			}
+			ts.NFTInst[instKey(c.Name, a.Class, a.ID)] = info
 			for _, n := range before.NFTs {
 				if n.Class == a.Class && n.ID == a.ID {
 					return ts.viol("voucher-reminted", "voucher existed before: "+st.Describe())
@@ -428,11 +482,11 @@ func (ts *TokenState) onRecv(s *Sim, st *Step, c *world.Chain, before TokenSnap,
 				return ts.viol("recv-delta", fmt.Sprintf("back receive changed tokens unexpectedly: %s; %s", delta, st.Describe()))
 			}
 			r, a := delta.NFTRemoved[0], delta.NFTAdded[0]
-			id, trail, ok := identOfNFT(c, a.Class, a.ID)
+			locked, ok := ts.NFTInst[instKey(c.Name, r.Class, r.ID)]
 			wantTrail := fl.Trail[:len(fl.Trail)-1]
-			if !ok || r.Owner != NFTEscrow || r.Class != a.Class || r.ID != a.ID || a.Owner != rcv || id != fl.Ident ||
-				strings.Join(trail, "/") != strings.Join(wantTrail, "/") {
-				return ts.viol("escrow-release-mismatch", fmt.Sprintf("released %+v -> %+v (ident %v) for flight %v: %s", r, a, id, fl.Ident, st.Describe()))
+			if !ok || r.Owner != NFTEscrow || r.Class != a.Class || r.ID != a.ID || a.Owner != rcv || locked.Ident != fl.Ident ||
+				strings.Join(locked.Trail, "/") != strings.Join(wantTrail, "/") {
+				return ts.viol("escrow-release-mismatch", fmt.Sprintf("released %+v -> %+v (locked instance represents %v via %v) for a returning voucher of %v via %v: %s", r, a, locked.Ident, locked.Trail, fl.Ident, fl.Trail, st.Describe()))
 			}
 		}
 		return nil
@@ -549,10 +603,14 @@ func CheckNFTConservation(ts *TokenState) func(*Sim, *Step) *Violation {
 		for _, name := range s.W.Order {
 			c := s.W.Chains[name]
 			for _, n := range SnapTokens(c).NFTs {
-				id, trail, ok := identOfNFT(c, n.Class, n.ID)
+				info, ok := ts.NFTInst[instKey(name, n.Class, n.ID)]
 				if !ok {
-					return ts.viol("voucher-class-without-trace", fmt.Sprintf("class %s on %s has no trace", n.Class, name))
+					if n.Owner == NFTEscrow {
+						continue
+					}
+					return ts.viol("nft-from-nowhere", fmt.Sprintf("instance %s/%s on %s held by %s came into existence neither by a native mint nor against a delivered packet, after %s", shortClass(n.Class), n.ID, short(name), shortAddr(n.Owner), st.Describe()))
 				}
+				id, trail := info.Ident, info.Trail
 				if trail[len(trail)-1] != name {
 					return ts.viol("voucher-trail-not-ending-here", fmt.Sprintf("class path of %s on %s ends elsewhere: %v", n.Class, name, trail))
 				}
